@@ -428,6 +428,13 @@ func genUE(r *kernel.Rand, o GenOpts, ord int) scn.UEParams {
 	if rs.Chance(1, 3) {
 		p.AMBRUL = structInt(rs, 4000000000000)
 	}
+	if ra := r.Sub("sess-ambr"); ra.Chance(3, 4) {
+		// units of TS 24.501 9.11.4.14 (1..25), the reserved ends, and octets that read as a length or an IEI
+		unit := func() int { return ra.Pick(ra.Range(1, 25), ra.Range(1, 25), 0, 255, 0x29, 0x59, 0x79, 0x7b, ra.Intn(256)) }
+		val := func() int { return ra.Pick(ra.Intn(65536), 0, 1, 0xffff, 0x2905, 0x0600, 0x0006) }
+		d, u := val(), val()
+		p.SessAMBR = fmt.Sprintf("%02x%04x%02x%04x", unit(), d, unit(), u)
+	}
 	p.FiveQI = r.Pick(1, 5, 9, 255, r.Intn(256))
 	if o.OptIEs {
 		p.NFlows = r.Sub("flows").Pick(1, 1, 1, 2, 6, 21, 22, 23, 30, 40, 64) // the list crosses 128 octets at about 25 flows
